@@ -1,6 +1,7 @@
 // C06 / C03 : the four loaders through both routes, query batteries, clear
 #include <fcntl.h>
 #include "sbh_common.hpp"
+#include <sanitizer/asan_interface.h>
 extern "C" {
 #include <skybrush/lights.h>
 #include <skybrush/rth_plan.h>
@@ -178,6 +179,75 @@ static void reload_fd(char kind, int fd, int* rc, std::string* bytes)
     }
 }
 
+// the same for a load from memory: rc and block bytes only
+static void reload_mem(char kind, uint8_t* p, size_t n, int* rc, std::string* bytes)
+{
+    if (kind == 't') {
+        sb_trajectory_t tr;
+        memset(&tr, SBH_FILL, sizeof(tr));
+        *rc = sb_trajectory_init_from_binary_file_in_memory(&tr, p, n);
+        if (*rc == SB_SUCCESS) {
+            *bytes = hex(SB_BUFFER(tr.buffer), sb_buffer_size(&tr.buffer));
+            sb_trajectory_destroy(&tr);
+        }
+    } else if (kind == 'l') {
+        sb_light_program_t prog;
+        memset(&prog, SBH_FILL, sizeof(prog));
+        *rc = sb_light_program_init_from_binary_file_in_memory(&prog, p, n);
+        if (*rc == SB_SUCCESS) {
+            *bytes = hex(SB_BUFFER(prog.buffer), sb_buffer_size(&prog.buffer));
+            sb_light_program_destroy(&prog);
+        }
+    } else if (kind == 'y') {
+        sb_yaw_control_t ctrl;
+        memset(&ctrl, SBH_FILL, sizeof(ctrl));
+        *rc = sb_yaw_control_init_from_binary_file_in_memory(&ctrl, p, n);
+        if (*rc == SB_SUCCESS) {
+            *bytes = hex(SB_BUFFER(ctrl.buffer), sb_buffer_size(&ctrl.buffer));
+            sb_yaw_control_destroy(&ctrl);
+        }
+    } else {
+        sb_rth_plan_t plan;
+        memset(&plan, SBH_FILL, sizeof(plan));
+        *rc = sb_rth_plan_init_from_binary_file_in_memory(&plan, p, n);
+        if (*rc == SB_SUCCESS) {
+            *bytes = hex(plan.buffer, plan.buffer_length);
+            sb_rth_plan_destroy(&plan);
+        }
+    }
+}
+
+// A caller that keeps ONE working buffer: other bytes of the same length were loaded from the same address just before
+// (the previous case's file when it has this length, else this file with one byte changed). What a load answers is a
+// function of the bytes it is given now, so this load must agree with the one from a fresh buffer.
+static std::string reused_buffer_note(char kind, const std::vector<uint8_t>& file, int rc_fresh, const std::string& bytes_fresh)
+{
+    static const size_t cap = 1u << 21;
+    static uint8_t* work = (uint8_t*)malloc(cap);
+    static std::vector<uint8_t> last;
+    size_t n = file.size();
+    if (!work || n == 0 || n > cap)
+        return "";
+    std::vector<uint8_t> prev = (last.size() == n && last != file) ? last : file;
+    if (prev == file)
+        prev[(n * 7) / 11] ^= 0x04;
+    last = file;
+    ASAN_UNPOISON_MEMORY_REGION(work, cap);
+    memcpy(work, prev.data(), n);
+    ASAN_POISON_MEMORY_REGION(work + n, cap - n);
+    int rc0 = -1, rc1 = -1;
+    std::string b0, b1;
+    reload_mem(kind, work, n, &rc0, &b0);
+    memcpy(work, file.data(), n);
+    reload_mem(kind, work, n, &rc1, &b1);
+    ASAN_UNPOISON_MEMORY_REGION(work, cap);
+    if (rc1 != rc_fresh)
+        return "a-reused-caller-buffer-loads-with-rc=" + std::to_string(rc1);
+    if (rc1 == SB_SUCCESS && b1 != bytes_fresh)
+        return "a-reused-caller-buffer-loads-other-bytes";
+    return "";
+}
+
 static RouteResult run_route(char kind, bool mem, const std::vector<uint8_t>& file)
 {
     RouteResult r;
@@ -315,6 +385,8 @@ SB_OP(load2)
     char kind = t[2][0];
     RouteResult f = run_route(kind, false, v);
     RouteResult m = run_route(kind, true, v);
+    if (m.memnote.empty())
+        m.memnote = reused_buffer_note(kind, v, m.rc, m.bytes);
     add(out, f.fdnote.empty() ? std::to_string(f.rc) : std::to_string(f.rc) + "!" + f.fdnote);
     add(out, m.memnote.empty() ? std::to_string(m.rc) : std::to_string(m.rc) + "!" + m.memnote);
     if (f.rc == SB_SUCCESS && m.rc == SB_SUCCESS) {
